@@ -1,6 +1,7 @@
 import Hifi.Lemmas.EpochOrd
 import Hifi.Model.Views
 import Hifi.Lemmas.ViewsFloat
+import Hifi.Gen.ViewsConsts
 /-
   C17  Julian Date, Modified Julian Date and UNIX views are exact affine re-expressions.
   Duration-valued accessors: theorems.  Float-valued accessors / constructors: theorems on the SoftF64
@@ -105,6 +106,27 @@ theorem float_day_constants_exact :
     toRat MJD_J1900F = ((15020 : Int) : Rat) ∧ toRat MJD_OFFSETF = 4800001 / 2 := by
   obtain ⟨h1, h2, h3, h4, h5, _⟩ := day_consts_exact
   exact ⟨h1, h2, h3, h4, h5⟩
+
+/-- THE CONSTANTS OF THE MODEL ARE THE CONSTANTS OF THE SOURCES.  `Model/Views.lean` writes 15020, 2400000.5 and
+    2415020.5 days as literals and `Model/ViewsFloat.lean` writes the two doubles as `ofInt 15020` /
+    `rnd (4800001/2)`; `Gen/ViewsConsts.lean` carries the bit patterns of `MJD_J1900`, `MJD_OFFSET` (src/lib.rs)
+    and of the f64 sum `MJD_J1900 + MJD_OFFSET`, regenerated from the linked crate at every run
+    (`hv dump-consts`).  Pinned here: the model's doubles ARE those bit patterns, and the model's three
+    durations are exactly those doubles × one day — so a change of either Rust constant breaks this proof.
+    (`MJD_J2000`, `JD_J1900`, `JD_J2000` are pinned to their documented values and to each other as well.) -/
+theorem view_constants_are_the_sources :
+    MJD_J1900F = F64.ofBits Gen.F64_MJD_J1900 ∧ MJD_OFFSETF = F64.ofBits Gen.F64_MJD_OFFSET ∧
+    F64.add MJD_J1900F MJD_OFFSETF = F64.ofBits Gen.F64_MJD_J1900_PLUS_MJD_OFFSET ∧
+    (mjdJ1900.val : Rat) = toRat (F64.ofBits Gen.F64_MJD_J1900) * 86400000000000 ∧
+    (mjdOffset.val : Rat) = toRat (F64.ofBits Gen.F64_MJD_OFFSET) * 86400000000000 ∧
+    (jdeJ1900.val : Rat) = toRat (F64.ofBits Gen.F64_MJD_J1900_PLUS_MJD_OFFSET) * 86400000000000 ∧
+    toRat (F64.ofBits Gen.F64_MJD_J1900) = ((Gen.MJD_J1900 : Int) : Rat) ∧
+    toRat (F64.ofBits Gen.F64_JD_J1900) = ((Gen.JD_J1900 : Int) : Rat) ∧
+    toRat (F64.ofBits Gen.F64_JD_J2000) = ((Gen.JD_J2000 : Int) : Rat) ∧
+    toRat (F64.ofBits Gen.F64_MJD_J2000) = 103089 / 2 ∧
+    toRat (F64.ofBits Gen.F64_MJD_J2000) + toRat (F64.ofBits Gen.F64_MJD_OFFSET) = toRat (F64.ofBits Gen.F64_JD_J2000) ∧
+    toRat (F64.ofBits Gen.F64_MJD_J1900) + toRat (F64.ofBits Gen.F64_MJD_OFFSET) = toRat (F64.ofBits Gen.F64_JD_J1900) + 1 / 2 := by
+  decide +kernel
 
 /-- **the 22 float-valued accessors** (`to_tai_seconds` … `to_gpst_days`; x = the elapsed time in the
     accessor's scale, every canonical duration with the margins of `duration_views_exact`, i.e. far
